@@ -15,6 +15,7 @@
 -/
 import PydapModel.Subset
 import Proofs.Subset
+import Proofs.EndToEnd
 import Props.C03
 namespace Pydap.C02
 open Pydap
@@ -242,5 +243,76 @@ example : sel 2 ⟨some 1, some 3, some 3⟩ = sel 2 ⟨some 1, none, some 3⟩ 
   C02_stop_beyond_extent 2 _ 3 rfl (by decide)
 example : ValidIdx (sel 2 PSlice.all).length (Idx.sl ⟨some 1, none, some 3⟩) := by
   refine ⟨by simp, by simp, by simp, by decide⟩
+
+/-! ### end to end on values: request ∘ server slicing ∘ XDR encode ∘ XDR decode = numpy indexing
+
+  `E2E.fetchArray ty shape vals pre idx` (PydapModel/EndToEnd.lean) composes the models that were separate:
+  `remoteIndex` above (client request, hyperslab text, server parse, per-axis positions), the server's
+  `target.data = target[slice_]` on the *values* (`E2E.gather`, row-major), `Xdr.encImpl` (responses/dods.py)
+  and `Xdr.decImpl` (the client's `unpack_dap2_data`).  `E2E.numpyIndex shape vals P E` is numpy's
+  `source[P][E]` with integer axes kept: per-axis positions as in `specList`, values by the product
+  semantics `E2E.npTake` — this is where "numpy's N-d basic indexing is the product of the per-axis
+  selections" is a *definition* (`Proofs/EndToEnd.lean`: `gather_spec` proves the row-major gather equal
+  to it pointwise); numpy itself is compared with it in the check (`e2e-array`). -/
+
+/-- **(A) array, no Ellipsis** (short tuples included), any DAP2 type, rank, extents, values, URL
+    pre-constraint with any strides: the client decodes exactly numpy's `source[pre][idx]` — shape
+    (integer axes kept with length 1) and values — and consumes the whole response. -/
+theorem C02_e2e_array (ty : Xdr.Ty) (shape : List Nat) (vals : List Xdr.Val) (pre : List PSlice) (idx : List Idx)
+    (hw : E2E.WFArr ty shape vals) (hpl : pre.length ≤ shape.length) (h : NoEll idx)
+    (hl : idx.length ≤ shape.length)
+    (hv : ValidList shape (padPre pre shape.length) (npExpand idx none shape.length)) :
+    ∃ cshape vs,
+      E2E.numpyIndex shape vals (padPre pre shape.length) (npExpand idx none shape.length) = some (cshape, vs) ∧
+      E2E.fetchArray ty shape vals pre idx = .ok (E2E.dataOf cshape vs, []) :=
+  E2E.fetchArray_spec ty shape vals pre idx _ hw hpl
+    (fun cshape hc => by rw [fixSlice_noEll idx cshape h (by omega), hc]) hv
+
+/-- **(A) with one Ellipsis anywhere in the index** -/
+theorem C02_e2e_array_ellipsis (ty : Xdr.Ty) (shape : List Nat) (vals : List Xdr.Val) (pre : List PSlice)
+    (a b : List Idx) (hw : E2E.WFArr ty shape vals) (hpl : pre.length ≤ shape.length)
+    (ha : NoEll a) (hb : NoEll b) (hl : a.length + b.length ≤ shape.length)
+    (hv : ValidList shape (padPre pre shape.length) (npExpand a (some b) shape.length)) :
+    ∃ cshape vs,
+      E2E.numpyIndex shape vals (padPre pre shape.length) (npExpand a (some b) shape.length) = some (cshape, vs) ∧
+      E2E.fetchArray ty shape vals pre (a ++ Idx.ell :: b) = .ok (E2E.dataOf cshape vs, []) :=
+  E2E.fetchArray_spec ty shape vals pre _ _ hw hpl
+    (fun cshape hc => by rw [fixSlice_ell a b cshape ha hb (by omega), hc]) hv
+
+/-- **the row-major gather is numpy's N-d basic indexing** (the bridge from C02's per-axis position
+    lists to values): for one position list per axis, all inside the source, the gathered list is —
+    in row-major order of the result, of length `∏ |S_k|` — `source[S₀[j₀], …, S_{r-1}[j_{r-1}]]`. -/
+theorem C02_e2e_gather_is_numpy {α : Type} (shape : List Nat) (S : List (List Nat)) (vals : List α)
+    (hr : E2E.InRange shape S) (hl : vals.length = Xdr.prod shape) :
+    (E2E.gather shape S vals).map some = (E2E.cart S).map (fun ix => vals[E2E.ravel shape ix]?) ∧
+    (E2E.gather shape S vals).length = Xdr.prod (selShape S) ∧
+    (E2E.cart S).length = Xdr.prod (selShape S) :=
+  ⟨E2E.gather_spec shape S vals hr hl, E2E.gather_length shape S vals hr hl, E2E.cart_length S⟩
+
+def exVals : List Xdr.Val := [.num 10, .num 11, .num 12, .num 13, .num 14, .num 15, .num 16, .num 17, .num 18, .num 19]
+
+/-- Int16 source `[10,11,…,19]`, `a[0:2:9]` in the URL, then `[1:3]`: numpy gives shape `(2,)`, values 12, 14 -/
+example : E2E.numpyIndex [10] exVals
+    (padPre [⟨some 0, some 10, some 2⟩] 1) (npExpand [Idx.sl ⟨some 1, some 3, none⟩] none 1)
+    = some ([2], [.num 12, .num 14]) := by decide
+example : E2E.fetchArray .int16 [10] exVals
+    [⟨some 0, some 10, some 2⟩] [Idx.sl ⟨some 1, some 3, none⟩] = .ok (.array [.num 12, .num 14], []) := by
+  obtain ⟨cs, vs, h1, h2⟩ := C02_e2e_array .int16 [10] exVals
+    [⟨some 0, some 10, some 2⟩] [Idx.sl ⟨some 1, some 3, none⟩]
+    ⟨by decide, by decide, by decide⟩ (by decide) (by intro x hx; simp at hx; subst hx; simp) (by decide)
+    (by refine ⟨⟨by simp, by simp, by simp⟩, ⟨by simp, by simp, by simp, by decide⟩, trivial⟩)
+  have : E2E.numpyIndex [10] exVals
+    (padPre [⟨some 0, some 10, some 2⟩] 1) (npExpand [Idx.sl ⟨some 1, some 3, none⟩] none 1)
+    = some ([2], [.num 12, .num 14]) := by decide
+  rw [show [10].length = 1 from rfl, this] at h1
+  cases h1
+  exact h2
+/-- rank 2, strings, an integer and an Ellipsis: `x[..., -1]` on a 2×3 array of strings keeps the axis -/
+example : E2E.numpyIndex [2, 3] ([[97], [98], [99], [100], [101], []].map Xdr.Val.str)
+    (padPre [] 2) (npExpand [] (some [Idx.int (-1)]) 2) = some ([2, 1], [.str [99], .str []]) := by decide
+example : E2E.WFArr .string [2, 3] ([[97], [98], [99], [100], [101], []].map Xdr.Val.str) :=
+  ⟨by decide, by decide, by decide⟩
+example : E2E.InRange [2, 3] [[1], [0, 2]] ∧ E2E.gather [2, 3] [[1], [0, 2]] [0, 1, 2, 3, 4, 5] = [3, 5] :=
+  ⟨by simp [E2E.InRange], by decide⟩
 
 end Pydap.C02
